@@ -253,6 +253,12 @@ fn judge_svd3(case: &Case, l: &mut Local) {
                 format!("points {:?}: singular values {:?}, worst relative variance error {:e}", pts, b.sv, worst)
             });
             l.check("rank reflects the dimension of the point set", "", b.rank(1e-9) == rank, mk, || format!("rank {} expected {} (sv {:?})", b.rank(1e-9), rank, b.sv));
+            // with a zero tolerance exactly the directions of non-zero extent count (a coincident set has none)
+            let positive = b.sv.iter().filter(|s| **s > 0.0).count();
+            if positive < 3 {
+                l.bucket("exactly zero singular value");
+            }
+            l.check("rank with a zero tolerance counts the directions of non-zero extent", "", b.rank(0.0) == positive && (rank > 0 || b.rank(0.0) == 0), mk, || format!("rank(0) {} for singular values {:?}", b.rank(0.0), b.sv));
         }
         let rt = pts.iter().map(|p| d3(&b.point_from_basis(&b.point_to_basis(p)), p)).fold(0.0, f64::max);
         l.check("points round-trip through the basis", "", rt <= 1e-10, mk, || format!("{:e}", rt));
@@ -430,7 +436,7 @@ pub fn run(tier: Tier) -> i32 {
     let mut cx = Ctx::new("C19", tier, "exploration");
     cx.rule = "frames: every ordered pair of the 124 non-zero vectors of {-2..2}^3 (parallel pairs included) x 6 two-vector constructors x 2 origins; basis-to-isometry builders over the 24 exact signed-permutation rotations (incl. every exact half turn), general and oblique half-turn rotations x 3 origins; principal axes: every multiset of 4 and 5 points of the 3x3x3 lattice (every 4th in the quick tier) x {no weights, unit, 2x unit, pattern, 3x pattern} and every multiset of 3..5 points of the 3x3 lattice; planes: every ordered triple of the 3x3x3 lattice. distinct = distinct cases".into();
     cx.bounds = json!({"vectors": vecs().len(), "rotations": rotations().len(), "svd3_multiset_sizes": [4, 5], "svd3_subsampling": tier.pick(4, 1)});
-    cx.require(&["parallel pair", "orthogonal pair", "oblique pair", "half-turn rotation", "other rotation", "coincident point set", "collinear point set", "planar point set", "generic point set", "2D point set", "plane through three points"]);
+    cx.require(&["parallel pair", "orthogonal pair", "oblique pair", "half-turn rotation", "other rotation", "coincident point set", "collinear point set", "planar point set", "generic point set", "exactly zero singular value", "2D point set", "plane through three points"]);
     cx.assume("axes are compared per axis up to sign where the singular-value gap exceeds 1e-6, singular values and centres always; weighted singular values are not given a variance meaning");
     let cs = cases(tier);
     let l = sweep(&cs, judge);
